@@ -1570,6 +1570,100 @@ def rule_cast(rep, d, cls):
 
 
 # ---------------------------------------------------------------------------------------------------------------------
+SELECT_DRIVER = r"""
+#include "xtl/xany.hpp"
+#include <utility>
+#include <vector>
+namespace xtl { namespace wx_sel {
+inline void use(any& a, const any& ca, any&& ra, const any&& cra)
+{
+    any c1(a); any c2(ca); any c3(std::move(ra)); any c4(std::move(cra)); any c5(std::move(ca));
+    any t; t = a; t = ca; t = std::move(ra); t = std::move(cra);
+    any v1(1); any v2(std::vector<int>{1, 2}); t = 2; t = std::vector<int>{3};
+}
+} }
+"""
+
+
+def rule_select(rep, std):
+    """an any built or assigned from another any - whatever its constness and value category - is a COPY or a MOVE of that any (the special members), never
+    the converting template with ValueType = [const] any, which would store an any inside an any (or recurse); values of other types take the template.
+    clang resolved the overloads; the constructor types it recorded are compared.  And the payload is direct-initialised `T(value)`: list-initialisation
+    would prefer an initializer_list constructor (a vector<any> holding itself)."""
+    rep.rule("C06.sel", "any(x) / a = x with x an any of any constness and value category selects the copy or move special member, never the converting template; "
+                        "other values select the template; the payload is direct-initialised (parentheses), not list-initialised")
+    d = cj.dump(SELECT_DRIVER, "xtl::", std=std)
+    rep.cmd(d.cmd)
+    use = [f for f in ir.functions(d, repo_only=False) if f.get("name") == "use" and len(ir.params(f)) == 4]
+    if not use:
+        rep.inconclusive("C06.sel", "driver", "overload selection", detail="driver function not found")
+        return
+    n = 0
+    for v in ir.walk_expr(ir.body(use[0])):
+        if v.get("kind") != "VarDecl" or not ir.ekids(v):
+            continue
+        e = ir.ekids(v)[-1]
+        ce = None
+        for x in [ir.strip(e)] + list(ir.walk_expr(e)):
+            if x.get("kind") == "CXXConstructExpr" and "any" in ir.qtype(x):
+                ce = x
+                break
+        if ce is None or not ir.ekids(ce):
+            continue
+        ct = re.sub(r"\s+", " ", (ce.get("ctorType") or {}).get("qualType", ""))
+        name = v.get("name")
+        from_any = name.startswith("c")
+        n += 1
+        special = re.match(r"^void \((const )?(xtl::)?any &&?\)( noexcept)?$", ct) is not None and "const xtl::any &&" not in ct and "const any &&" not in ct
+        if from_any and not special:
+            rep.violates("C06.sel", "any::any", "construction from another any", where=d.where(v), scenario=re.sub(r"\s+", " ", d.text(v))[:50],
+                         detail="selects `%s`: the converting template takes the any as a payload (an any stored inside an any, or unbounded recursion through construct) instead of copying it" % ct)
+        elif not from_any and special:
+            rep.violates("C06.sel", "any::any", "construction from a value", where=d.where(v), scenario=re.sub(r"\s+", " ", d.text(v))[:50], detail="selects `%s`" % ct)
+        else:
+            rep.holds("C06.sel", "any::any", "construction from %s" % ("another any" if from_any else "a value"), where=d.where(v), scenario=re.sub(r"\s+", " ", d.text(v))[:50], detail=ct)
+    for x in ir.walk_expr(ir.body(use[0])):
+        if x.get("kind") == "CXXOperatorCallExpr" and len(ir.ekids(x)) == 3:
+            cal = ir.strip(ir.ekids(x)[0])
+            while cal.get("kind") == "ImplicitCastExpr" and ir.ekids(cal):
+                cal = ir.strip(ir.ekids(cal)[0])
+            rd = cal.get("referencedDecl") or {}
+            if rd.get("name") != "operator=":
+                continue
+            ct = re.sub(r"\s+", " ", (rd.get("type") or {}).get("qualType", ""))
+            rhs_t = ir.qtype(ir.ekids(x)[2])
+            from_any = re.search(r"(^|[ :])any( |$|&)", rhs_t.replace("const ", "")) is not None
+            special = re.match(r"^(xtl::)?any &\((const )?(xtl::)?any &&?\)( noexcept)?$", ct) is not None and "const xtl::any &&" not in ct and "const any &&" not in ct
+            n += 1
+            txt = re.sub(r"\s+", " ", d.text(x))[:50]
+            if from_any and not special:
+                rep.violates("C06.sel", "any::operator=", "assignment from another any", where=d.where(x), scenario=txt, detail="selects `%s`: the any is stored as a payload instead of being copied" % ct)
+            elif not from_any and special:
+                rep.violates("C06.sel", "any::operator=", "assignment from a value", where=d.where(x), scenario=txt, detail="selects `%s`" % ct)
+            else:
+                rep.holds("C06.sel", "any::operator=", "assignment from %s" % ("another any" if from_any else "a value"), where=d.where(x), scenario=txt, detail=ct)
+    if n < 10:
+        rep.broke("C06.sel: only %d constructions/assignments resolved in the driver (13 expected)" % n)
+    # initialisation style of the payload
+    news = []
+    for f in ir.functions(d):
+        if f.get("name") == "construct" and ir.is_template_pattern(d, f):
+            news += [(f, x) for x in ir.walk_expr(f) if x.get("kind") == "CXXNewExpr"]
+    if not news:
+        rep.inconclusive("C06.sel", "any::construct", "payload initialisation style", detail="no new-expression found in the pattern of construct")
+    for f, x in news:
+        style = x.get("initStyle")
+        lab = "placement" if x.get("isPlacement") else "heap"
+        if style == "list":
+            rep.violates("C06.sel", "any::construct", "payload initialisation style", where=d.where(x), scenario=lab,
+                         detail="`%s` list-initialises the payload: a type with an initializer_list constructor whose element type is constructible from the type itself "
+                                "(vector<any>, json) stores a one-element list holding the value instead of a copy of the value" % re.sub(r"\s+", " ", d.text(x))[:60])
+        elif style == "call":
+            rep.holds("C06.sel", "any::construct", "payload initialisation style", where=d.where(x), scenario=lab, detail="direct initialisation")
+        else:
+            rep.inconclusive("C06.sel", "any::construct", "payload initialisation style", where=d.where(x), scenario=lab, detail="initStyle %s" % style)
+
+
 def run(tier):
     rep = Report("C06", tier, "other",
                  "Structural necessary conditions of xtl::any decided on the resolved AST: (slot) each function stored in a vtable slot is "
@@ -1604,4 +1698,5 @@ def run(tier):
         rule_life(rep, d, cls, selfswap)
         rule_consume_first(rep, d, cls)
         rule_cast(rep, d, cls)
+        rule_select(rep, std)
     return rep
